@@ -88,6 +88,12 @@ def judge_step(ctx, what, st, o, bits, local, k, rp):
         cc.viol(ctx, "%s:%s:%s" % (what, st["name"], o["res"]), {"err": o.get("err")}, rp)
         return False
     bad = table_preds(o["buckets"], bits, local, k)
+    # Size = number of distinct peer ids in the table; a removed peer is not found any more
+    distinct = len({p for b in o["buckets"] for p in b})
+    if o.get("size", distinct) != distinct or o.get("listed", distinct) != distinct:
+        bad.append("Size")
+    if st["name"] == "Remove" and o.get("found"):
+        bad.append("RemoveThenFind")
     for b in bad:
         cc.viol(ctx, "%s:%s:%s:k%d" % (what, st["name"], b, k), {"buckets": o["buckets"]}, rp)
     if st["name"] == "Nearest":
@@ -132,7 +138,7 @@ def replay(ctx, binary, cfg, k, tag):
             if not judge_step(ctx, "replay", st, o, bits, local, k, rp):
                 break
             same = o["buckets"] == s["to"]["buckets"] and (st["name"] == "Nearest" or o["res"] == s["to"]["res"]) \
-                and (st["name"] != "Nearest" or o["out"] == st["out"])
+                and (st["name"] != "Nearest" or o["out"] == st["out"]) and o["addr"][:len(s["to"]["addr"])] == s["to"]["addr"]
             if not same:
                 drift += 1
                 if drift <= 3:
@@ -173,7 +179,8 @@ def rand_path(rng, nids, nsteps, k):
         x = rng.random()
         p = rng.choice(hot) if rng.random() < 0.7 else rng.randrange(1, nids + 1)
         if x < 0.6:
-            path.append({"name": "Update", "p": p})
+            # a peer mostly re-announces its address, sometimes another one (reconnect from another IP / port)
+            path.append({"name": "Update", "p": p, "a": 1 if rng.random() < 0.7 else rng.choice([2, 3])})
         elif x < 0.8:
             path.append({"name": "Remove", "p": p})
         else:
@@ -204,7 +211,7 @@ def trace(ctx, binary, k, nids, ntraces, nsteps, tag):
             if st["name"] == "Nearest":
                 e.update({"t": st["t"], "n": st["n"], "out": o["out"]})
             else:
-                e.update({"p": st["p"], "res": o["res"]})
+                e.update({"p": st["p"], "res": o["res"], "addr": o["addr"], "a": st.get("a", 1), "found": bool(o.get("found"))})
             events.append(e)
         if len(os_) != len(path) and good:
             ctx.infra("trace %d: %d observations for %d steps" % (pi, len(os_), len(path)))
